@@ -1,6 +1,7 @@
 import HexVerif.Lemmas.AsmDebug
 import HexVerif.Lemmas.SimLoadFile
 import HexVerif.Lemmas.XcmpPeepLabels
+import HexVerif.Lemmas.XcmpPlainCode
 /-
   C15 — trace and debug symbols report what is actually executing.
   Models: `Asm.emitGo` (debug table collection in hexasm.hpp `emitProgramBin`), `Sim.load`'s
@@ -94,6 +95,18 @@ theorem C15_loader_roundtrip (p : List (Dir × Loc)) (img : Image) (mem0 : Mem) 
 theorem C15_peephole_keeps_labels (ds : List Dir) :
     Xcmp.labelsOf (Xcmp.peephole ds) = Xcmp.labelsOf ds :=
   Xcmp.peephole_labels ds
+
+
+/-- **(a) on the compiler side, code generation.**  For every X program the compiler model accepts,
+    the intermediate code carries exactly one PROLOGUE marker per procedure or function of the SOURCE
+    program, in source order - called or not - and the bodies contain no procedure-level directive
+    (`Xcmp.genStmt_pc`: only instructions, frame accesses and plain generated labels).  Lowering
+    turns each marker into that procedure's FUNC/PROC label (by the symbol's type; not proved here),
+    the peephole pass keeps labels (`C15_peephole_keeps_labels`), the assembler lists the FUNC/PROC
+    labels (`C15_symbols`), hexsim reads them back (`C15_loader_roundtrip`). -/
+theorem C15_one_marker_per_procedure (P : X.Program) (st : Xcmp.Stages) (h : Xcmp.stages P = .ok st) :
+    Xcmp.procMarks st.cg.instrs = P.procs.map (·.name) :=
+  Xcmp.stages_marks P st h
 
 
 end Hex.Properties.C15
